@@ -21,6 +21,7 @@ type ReadArgs struct {
 	Fwd    *bool
 	Limit  *int
 	Esk    Item
+	Proj   *string // ProjectionExpression
 }
 
 // WriteArgs carries the optional parts of a single-item write.
